@@ -64,12 +64,14 @@ structure TreeOk' (hole : Option Nat) (t : Tree K V) : Prop where
   order4 : 4 ≤ t.order
   even  : t.order % 2 = 0
 
-theorem TreeOk.prime {hole : Option Nat} {t : Tree K V} (h : TreeOk hole t) : TreeOk' hole t :=
-  ⟨h.ids, fun p hp => (h.occ p hp).mono (minOf'_le _ _ _ _ _), h.chain, h.order4, h.even⟩
+theorem TreeOk.prime {hole : Option Nat} {t : Tree K V} (h : TreeOk hole t) (h4 : 4 ≤ t.order) :
+    TreeOk' hole t :=
+  ⟨h.ids, fun p hp => (h.occ p hp).mono (minOf'_le _ _ _ _ _), h.chain, h4, h.even⟩
 
 theorem TreeOk'.unprime {hole : Option Nat} {t : Tree K V} (h : TreeOk' hole t)
     (hr : ∀ c, hole = some c → c ≠ t.rootId) : TreeOk hole t :=
-  ⟨h.ids, fun p hp => (h.occ p hp).mono (minOf_le' _ _ hr), h.chain, h.order4, h.even⟩
+  ⟨h.ids, fun p hp => (h.occ p hp).mono (minOf_le' _ _ hr), h.chain, by have := h.order4; omega,
+    fun _ => h.order4, h.even⟩
 
 /-! ### the invariant across a rewrite -/
 
